@@ -402,6 +402,21 @@ func (c Context) IsZero() bool {
 	return c.ms == nil
 }
 
+// simulateCtxKey marks the context an app/simulate query runs its message under. Both the
+// check state and the deliver state of this application are created with isCheckTx set, so
+// IsCheckTx cannot tell a simulation from block execution.
+type simulateCtxKey struct{}
+
+// WithSimulate marks the context as belonging to a simulation (see baseapp.runTx).
+func (c Context) WithSimulate() Context { return c.WithValue(simulateCtxKey{}, true) }
+
+// IsSimulateCtx reports whether a handler runs as part of an app/simulate query: whatever it
+// does must stay without effect on the node, process globals included.
+func IsSimulateCtx(c Ctx) bool {
+	v, _ := c.Value(simulateCtxKey{}).(bool)
+	return v
+}
+
 // WithValue is deprecated, provided for backwards compatibility
 // Please use
 //     ctx = ctx.WithContext(context.WithValue(ctx.Context(), key, false))
